@@ -81,6 +81,13 @@ func vfConsistency(g *vfGW, extra []*vfClient) []vfXViolation {
 			}
 		}
 	}
+	// the registry of sessions holds no terminated session (a registered session can still be evicted,
+	// counted and addressed by sid)
+	for sid, s := range globals.sessionStore.sessCache {
+		if c, ok := clients[s]; ok && c.ended {
+			bad("C14:terminated-session-in-registry", fmt.Sprintf("the connection of session %s (%s) has ended, the session is still registered", c.name, sid))
+		}
+	}
 	// session -> topic direction
 	for _, c := range all {
 		s := c.sess
